@@ -1,5 +1,5 @@
 (* C16 — opreturn prints exactly the non-empty UTF-8 payloads, in chain order. Pinned statements only: each theorem is closed by `exact` of a lemma proved in theories/. *)
-From RBP Require Import Bytes Hashes Base58 Bech32 Utf8 Wire Block BlockP ScriptCustom CustomTop ScriptCustomP ScriptBtc ScriptBtcP Index Model OpReturnP FrameP.
+From RBP Require Import Bytes Hashes Base58 Bech32 Utf8 Wire Block BlockP ScriptCustom CustomTop ScriptCustomP ScriptBtc ScriptBtcP Index Model OpReturnP FrameP Utf8P.
 From RBP Require Drive Merkle Utxo Stats OutProto Reader Published Misc.
 
 Theorem C16_btc_payload_is_the_push :
@@ -50,6 +50,38 @@ Theorem C16_push_forms :
   forall (f : pform) (d : bytes) (rest : list N), pfits f d -> inext_of (enc_push f d ++ rest) = ISome (IPush d) rest.
 Proof. exact inext_push. Qed.
 
+Theorem C16_valid_utf8_is_scalar_values :
+  forall l : bytes, utf8_valid l = true <-> (exists cps : list N, Forall (fun cp : N => valid_cp cp = true) cps /\ l = encode_all cps).
+Proof. exact utf8_valid_iff. Qed.
+
+Theorem C16_lossy_identity_on_valid :
+  forall l : bytes, utf8_valid l = true -> from_utf8_lossy l = l.
+Proof. exact lossy_identity_on_valid. Qed.
+
+Theorem C16_lossy_valid_prefix :
+  forall cps r : list N, Forall (fun cp : N => valid_cp cp = true) cps -> from_utf8_lossy (encode_all cps ++ r) = encode_all cps ++ from_utf8_lossy r.
+Proof. exact lossy_valid_prefix. Qed.
+
+Theorem C16_lossy_output_valid :
+  forall l : bytes, utf8_valid (from_utf8_lossy l) = true.
+Proof. exact lossy_output_valid. Qed.
+
+Theorem C16_lossy_output_is_scalars :
+  forall l : bytes, exists cps : list N, Forall (fun cp : N => valid_cp cp = true) cps /\ from_utf8_lossy l = encode_all cps.
+Proof. exact lossy_output_is_scalars. Qed.
+
+Theorem C16_lossy_changes_iff_invalid :
+  forall l : bytes, from_utf8_lossy l = l <-> utf8_valid l = true.
+Proof. exact lossy_changes_iff_invalid. Qed.
+
+Theorem C16_valid_payload_printed_verbatim :
+  forall (c : coin) (f : pform) (d : bytes), pfits f d -> d <> [] -> utf8_valid d = true -> e_tag (eval_script c (106 :: enc_push f d)) = 0 /\ e_text (eval_script c (106 :: enc_push f d)) = d.
+Proof. exact opreturn_text_valid_payload. Qed.
+
+Theorem C16_fork_text_is_valid :
+  forall (c : coin) (f : pform) (d : bytes), is_btc c = false -> pfits f d -> d <> [] -> utf8_valid (e_text (eval_script c (106 :: enc_push f d))) = true.
+Proof. exact opreturn_text_fork. Qed.
+
 Print Assumptions C16_btc_payload_is_the_push.
 Print Assumptions C16_btc_opreturn_verdict.
 Print Assumptions C16_btc_opreturn_iff_first_byte.
@@ -62,3 +94,11 @@ Print Assumptions C16_prints_text.
 Print Assumptions C16_eval_script_btc.
 Print Assumptions C16_eval_script_fork.
 Print Assumptions C16_push_forms.
+Print Assumptions C16_valid_utf8_is_scalar_values.
+Print Assumptions C16_lossy_identity_on_valid.
+Print Assumptions C16_lossy_valid_prefix.
+Print Assumptions C16_lossy_output_valid.
+Print Assumptions C16_lossy_output_is_scalars.
+Print Assumptions C16_lossy_changes_iff_invalid.
+Print Assumptions C16_valid_payload_printed_verbatim.
+Print Assumptions C16_fork_text_is_valid.
